@@ -300,7 +300,7 @@ func c07CSVIn(c *Ctx, res *types.Named) (encF, decF map[string]bool) {
 		return
 	}
 	encField := make([]string, len(cols))
-	_ = enc.Params[0]
+	_ = userParam(enc, 0)
 	for i, col := range cols {
 		f := resultFieldIn(col, "Result")
 		encField[i] = f
@@ -390,7 +390,7 @@ func c07CSVIn(c *Ctx, res *types.Named) (encF, decF map[string]bool) {
 	var stores []fstore
 	eachInstrI(dec, func(i ssa.Instruction) {
 		if st, ok := i.(*ssa.Store); ok {
-			if fa, ok := st.Addr.(*ssa.FieldAddr); ok && rootVal(fa.X) == ssa.Value(dec.Params[0]) {
+			if fa, ok := st.Addr.(*ssa.FieldAddr); ok && rootVal(fa.X) == ssa.Value(userParam(dec, 0)) {
 				stores = append(stores, fstore{fieldName(fa.X.Type(), fa.Field), st})
 			}
 		}
